@@ -32,6 +32,9 @@ OBL_CLASSES = [
     ("precondition not satisfied", "precondition"),
     ("invariant not satisfied at end of loop body", "invariant-preserved"),
     ("invariant not satisfied before loop", "invariant-established"),
+    ("loop invariant not satisfied", "invariant-preserved"),
+    ("loop ensures not satisfied", "loop-postcondition"),
+    ("postcondition not satisfied", "postcondition"),
     ("assertion failed", "assertion"),
     ("assertion failure", "assertion"),
     ("decreases not satisfied", "termination"),
@@ -134,12 +137,28 @@ def fn_regions(lines: list[GenLine], functions):
     return out
 
 
+def _callsite(span, gen_file):
+    """a span inside a macro expansion (e.g. unimplemented!()) -> the span of the macro call in the generated file"""
+    s = span
+    guard = 0
+    while s and os.path.basename(s.get("file_name", "")) != gen_file and s.get("expansion") and guard < 10:
+        s2 = dict(s["expansion"]["span"])
+        s2["is_primary"] = span.get("is_primary")
+        s2.setdefault("label", span.get("label"))
+        s = s2
+        guard += 1
+    return s
+
+
 def triage(unit, gen, vr, unit_cfg):
     """-> (failures, tool_errors).  failure = dict(obligation, cls, property, fn, rendered, where)"""
     lines = gen.lines
+    gen_file = os.path.basename(vr["cmd"][1])
     regions = fn_regions(lines, gen.functions)
 
     def region_of(ln):
+        if 1 <= ln <= len(lines) and getattr(lines[ln - 1], "fid", None):
+            return lines[ln - 1].fid
         for a, b, fid in regions:
             if a <= ln <= b:
                 return fid
@@ -160,7 +179,7 @@ def triage(unit, gen, vr, unit_cfg):
             continue
         if cls is None:
             continue
-        spans = d.get("spans", [])
+        spans = [_callsite(s, gen_file) for s in d.get("spans", [])]
         label, kind, where, fn = None, None, None, None
         prim = next((s for s in spans if s.get("is_primary")), spans[0] if spans else None)
         for s in spans:
